@@ -640,6 +640,19 @@ func ruleCondCapacity(c *Ctx, r *R) {
 				if _, isSel := g.cond.(*ssa.Extract); isSel {
 					continue
 				}
+				// a shared implementation selected by a constant argument (c.wake(wakeOne): `switch scope { case wakeOne: … }`):
+				// the guard compares a parameter with a constant and is true for the constant Signal passes
+				if cf, ok := g.asCmp(); ok {
+					x, y, op := cf.x, cf.y, cf.op
+					if _, isK := x.(*ssa.Const); isK {
+						x, y, op = y, x, flip(op)
+					}
+					ky, okY := y.(*ssa.Const)
+					kx, okX := argOf(resolveVal(x), cs.chain).(*ssa.Const)
+					if okX && okY && kx.Value != nil && ky.Value != nil && kx.Value.Kind() == ky.Value.Kind() && constant.Compare(kx.Value, op, ky.Value) {
+						continue
+					}
+				}
 				uncond = false
 				why = path(g.cond)
 			}
